@@ -10,6 +10,13 @@ import PycsepVerif.Drive.C15
 import PycsepVerif.Drive.C14
 import PycsepVerif.Drive.C05
 import PycsepVerif.Drive.C16
+import PycsepVerif.Drive.C12
+import PycsepVerif.Drive.C19
+import PycsepVerif.Drive.C01
+import PycsepVerif.Drive.C03
+import PycsepVerif.Drive.C02
+import PycsepVerif.Drive.C10
+import PycsepVerif.Drive.C20
 -- REGISTER-IMPORT (one `import PycsepVerif.Drive.Cxx` line per property, above this line)
 
 /-- the per-property handlers, tried in order; each returns `none` for ops it does not know -/
@@ -26,6 +33,13 @@ def handlers : List (List String → Option String) := [
   , Drive.C14.handle
   , Drive.C05.handle
   , Drive.C16.handle
+  , Drive.C12.handle
+  , Drive.C19.handle
+  , Drive.C01.handle
+  , Drive.C03.handle
+  , Drive.C02.handle
+  , Drive.C10.handle
+  , Drive.C20.handle
   -- REGISTER-HANDLER (`, Drive.Cxx.handle` lines above this line)
 ]
 
